@@ -35,10 +35,10 @@ var c10Projects = map[string]*project{
 		Types: map[string]string{"@tag": `"t1" // {regex: "t\\d"}`}},
 	// shallow valid
 	"S2": {Root: "[\n\t1,\n\t\"two\",\n\t{\n\t\t\"three\": null\n\t}\n]"},
-	// fails in the scanner after some nodes were loaded
-	"S3": {Root: "{\n\t\"a\": 1,\n\t\"b\": [\n\t\t2,\n\t\t3\n\t],\n\t\"c\": tru\n}"},
-	// fails in the rule loader inside an annotation
-	"S4": {Root: "{\n\t\"a\": 1, // {min: 0}\n\t\"b\": 2 // {min: 0, nosuchrule: 1}\n}"},
+	// fails in the scanner after some nodes (and inline or-types, a type shortcut) were loaded
+	"S3": {Root: "{\n\t\"a\": 1, // {or: [{type: \"integer\"}, {type: \"@gone\", nullable: true}]}\n\t\"s\": @x | @y,\n\t\"b\": [\n\t\t2,\n\t\t3\n\t],\n\t\"c\": tru\n}"},
+	// fails in the rule loader inside an annotation, after an or rule registered its unnamed types
+	"S4": {Root: "{\n\t\"a\": 5, // {or: [{type: \"@missing\", nullable: true}, {type: \"string\"}]}\n\t\"b\": 2 // {min: 0, nosuchrule: 1}\n}"},
 	// fails in the checker
 	"S5": {Root: "{\n\t\"a\": 1, // {min: 0}\n\t\"b\": @missing,\n\t\"c\": 2 // {min: 5}\n}"},
 }
@@ -69,6 +69,9 @@ func c10Alphabet() []c10Sym {
 	}
 	for _, op := range []string{"Check", "Example", "Len", "Example+write"} {
 		out = append(out, c10Sym{"R1", op})
+	}
+	for _, lit := range []string{"1e2", "1.0", `"a.b"`, "25E-1", "7"} {
+		out = append(out, c10Sym{"G", lit})
 	}
 	// "+write": the caller overwrites the bytes it was given (they are its own)
 	out = append(out, c10Sym{"S1", "Example+write"}, c10Sym{"S6", "Example+write"}, c10Sym{"S2", "Example+write"})
@@ -173,6 +176,9 @@ func c10Exec(objs *c10Objects, sym c10Sym) (res c10Result) {
 				u, err := s.UsedUserTypes()
 				set(func() string { return strings.Join(u, ",") + "|" + errSnap(err) })
 			}
+		case "G":
+			t, err := schema.GuessSchemaType([]byte(sym.Op))
+			set(func() string { return string(t) + "|" + errSnap(err) })
 		case "E1":
 			if objs.e == nil {
 				objs.e = enum.New("e", c10Enum)
